@@ -24,8 +24,9 @@ def run_one(d):
         a = subprocess.run(['git', 'apply', os.path.join(d, 'patch.diff')], cwd=dst, capture_output=True, text=True)
         if a.returncode != 0:
             return prop, 'patch-does-not-apply', a.stderr[-200:]
-        env = dict(os.environ, VERIF_REPO=dst, VERIF_NO_EVIDENCE='1')
-        p = subprocess.run([sys.executable, os.path.join(VERIF, 'tools', 'check.py'), prop], env=env, capture_output=True, text=True)
+        tier = meta.get('tier', 'quick')     # a mutation only the thorough sweep reaches says so in its meta.json
+        env = dict(os.environ, VERIF_REPO=dst, VERIF_NO_EVIDENCE='1', VERIF_TIER=tier)
+        p = subprocess.run([sys.executable, os.path.join(VERIF, 'tools', 'check.py'), prop, '--tier', tier], env=env, capture_output=True, text=True)
         out = p.stdout
         if p.returncode == 1 and 'VIOLATION property=%s' % prop in out:
             first = [l for l in out.split('\n') if l.startswith('VIOLATION')][0]
